@@ -13,11 +13,18 @@ package c14
 // (script, dbrps, vars: the stored definition moves away from the running one), a fatal
 // feed on a db.rp the RUNNING execution listens on, 0-2 more requests. Feeds are also drawn
 // anywhere by drawOp (db.rp steered to a running fragile execution or any of the pool;
-// 1-4 points with one time: 1-2 are processed, 3-4 are fatal).
+// 1-4 points with one time: 1-2 are processed, 3-4 are fatal). Rarely (3 % of the Catalogue
+// histories, none of the Crash histories: it is slow) a "bulk" follows the scenario prefix:
+// 95-125 further plain tasks - or exactly as many as make 99 / 100 / 101 / 200 / 201 tasks -
+// with ids that sort before, between and after the pool ids, a few of them disabled at
+// generated positions of the id order, then 0-3 disable / enable / delete requests to bulk
+// tasks; the usual requests, tails and restarts follow on a catalogue of more than one page.
 
 import (
+	"fmt"
 	"os"
 	"regexp"
+	"sort"
 	"strings"
 
 	"verifharness/kit"
@@ -147,7 +154,7 @@ func predict(m *model, op Op) prediction {
 			return prediction{accept: true, known: "template-changed-without-rename"}
 		}
 		return prediction{accept: true}
-	case "delete", "tdelete", "feed":
+	case "delete", "tdelete", "feed", "bulk":
 		return prediction{accept: true}
 	case "tcreate":
 		if op.ID == badTmplID || op.ID == "" || op.Script == "" || isBadScript(op.Script) {
@@ -577,6 +584,15 @@ func genHistory(t *rapid.T, r *kit.Rec, excluded map[string]bool, n int, restart
 			push(op)
 		}
 	}
+	// rarely (it is slow): a catalogue that does not fit into one page of 100 tasks - the
+	// server lists its tasks in pages when it starts them, and so does every client
+	if restarts && rare(t, "bulk", 3) {
+		bulk := drawBulk(t, sh)
+		push(bulk)
+		for i, k := 0, pick(t, "bulk-tweaks", []int{0, 1, 2, 3}); i < k; i++ {
+			push(Op{K: pick(t, "bulk-tweak", []string{"disable", "delete", "enable", "disable"}), ID: pick(t, "bulk-tweak-id", bulk.Bulk).ID})
+		}
+	}
 	for tries := 0; len(ops) < n && tries < 4*maxSteps; tries++ {
 		push(drawOp(t, r, sh))
 	}
@@ -641,6 +657,45 @@ func genHistory(t *rapid.T, r *kit.Rec, excluded map[string]bool, n int, restart
 		}
 	}
 	return ops, sh
+}
+
+// bulkPrefixes: with a three digit number appended, ids that sort before, between and after
+// the ids of the pool ("bad id!" < "t" < "t1" < "t1_b" < "t2" in byte order).
+var bulkPrefixes = []string{"a", "t0", "t1a", "t1_c", "u", "B"}
+
+// drawBulk: 95-125 additional plain tasks (sometimes exactly as many as make the catalogue
+// 99 / 100 / 101 / 200 / 201 tasks), mostly enabled, a few disabled at generated positions of
+// the id order; created in an order that is not the id order.
+func drawBulk(t *rapid.T, sh *model) Op {
+	have := len(sh.tasks)
+	var n int
+	switch k := rapid.IntRange(0, 11).Draw(t, "bulk-size"); {
+	case k < 6:
+		n = rapid.IntRange(95, 125).Draw(t, "bulk-n")
+	case k < 7:
+		n = 99 - have
+	case k < 9:
+		n = 100 - have
+	case k < 11:
+		n = 101 - have
+	default:
+		n = pick(t, "bulk-n2", []int{200, 201}) - have
+	}
+	ids := make([]string, n)
+	for i := range ids {
+		ids[i] = fmt.Sprintf("%s%03d", pick(t, "bulk-prefix", bulkPrefixes), i)
+	}
+	sorted := append([]string(nil), ids...)
+	sort.Strings(sorted)
+	dis := map[string]bool{}
+	for i, k := 0, pick(t, "bulk-disabled", []int{1, 2, 1, 3, 0, 6}); i < k; i++ {
+		dis[sorted[rapid.IntRange(0, n-1).Draw(t, "bulk-dis-pos")]] = true
+	}
+	op := Op{K: "bulk", Bulk: make([]BulkTask, n)}
+	for i, id := range ids {
+		op.Bulk[i] = BulkTask{ID: id, Dis: dis[id]}
+	}
+	return op
 }
 
 func freeIDs(sh *model) []string {
